@@ -7,20 +7,24 @@ Import Num.
 Open Scope Z_scope.
 
 (* ------------------------------------------------------------------ *)
-(* the expected refutation: rounding of a fade step that lands on .5   *)
+(* a fade step that lands on .5 (the former refutation)                *)
 (* ------------------------------------------------------------------ *)
 Definition black (p : pins3) : rgb := let '(a, b, c) := p in mkRgb (PI a, PI b, PI c) (0, 0, 0) false.
 
 Definition w_ops : list RGBLed.op := [Fade (PI 1) (PI 0) (PI 0) (PI 100) (PI 2)].
 
-Lemma rgb_fade_half_differs :
-  canon (drtr (9, 10, 11) drinit w_ops) <> canon (fst (hrrun (9, 10, 11) (black (9, 10, 11)) w_ops)).
-Proof. vm_compute. discriminate. Qed.
+(* the former witness of F-C04-rgb-fade-half-rounding: step 1 of rgb.fade(1, 0, 0, 100, steps=2) from black is exactly
+   0.5 - both sides now round it to 0, the red pin goes to level 1 at t = 50 ms on the device as on the host; and a
+   half that rounds UP to the even neighbour (1.5 -> 2) *)
+Definition w_ops_up : list RGBLed.op := [Fade (PI 3) (PI 0) (PI 0) (PI 100) (PI 2)].
 
 Lemma rgb_fade_half_values :
-  canon (drtr (9, 10, 11) drinit w_ops) = ([(0, 9, 1)], 50) /\
-  canon (fst (hrrun (9, 10, 11) (black (9, 10, 11)) w_ops)) = ([(50, 9, 1)], 50).
-Proof. vm_compute. split; reflexivity. Qed.
+  canon (drtr (9, 10, 11) drinit w_ops) = ([(50, 9, 1)], 50) /\
+  canon (fst (hrrun (9, 10, 11) (black (9, 10, 11)) w_ops)) = ([(50, 9, 1)], 50) /\
+  tie 2 0 1 1 = true /\ c_interp 2 0 1 1 = 0 /\ c_interp 2 0 3 1 = 2 /\ c_interp 2 3 0 1 = 2 /\ c_interp 4 255 249 3 = 250 /\
+  canon (drtr (9, 10, 11) drinit w_ops_up) = canon (fst (hrrun (9, 10, 11) (black (9, 10, 11)) w_ops_up)) /\
+  canon (drtr (9, 10, 11) drinit w_ops_up) = ([(0, 9, 2); (50, 9, 3)], 50).
+Proof. vm_compute. repeat split; reflexivity. Qed.
 
 (* ------------------------------------------------------------------ *)
 (* clamp clause                                                        *)
@@ -36,34 +40,54 @@ Qed.
 Lemma clamp3_ok : forall r g b, triple_ok (clamp3 r g b).
 Proof. intros. unfold clamp3, triple_ok. repeat split; apply clamp255_range. Qed.
 
-(* an interpolated value lies between start and target *)
+Lemma even_mod2 : forall a, Z.even a = (a mod 2 =? 0).
+Proof.
+  intro a. rewrite Zeven_mod. destruct (Z.eqb_spec (a mod 2) 0) as [E|E].
+  - apply Zeq_is_eq_bool. exact E.
+  - destruct (Zeq_bool (a mod 2) 0) eqn:F; [|reflexivity]. apply Zeq_bool_eq in F. contradiction.
+Qed.
+
+(* the device's quotient/remainder form, with floor division: for num >= 0 C's / and % are div and mod *)
+Lemma c_interp_nonneg : forall n s t i, 0 < n -> 0 <= s * n + (t - s) * i ->
+  c_interp n s t i =
+  let num := s * n + (t - s) * i in
+  if (n <? 2 * (num mod n)) || ((2 * (num mod n) =? n) && negb (Z.even (num / n))) then num / n + 1 else num / n.
+Proof.
+  intros n s t i Hn Hnum. unfold c_interp. cbv zeta.
+  rewrite Z.quot_div_nonneg, Z.rem_mod_nonneg by lia.
+  assert (Hq : 0 <= (s * n + (t - s) * i) / n) by (apply Z.div_pos; lia).
+  rewrite Z.rem_mod_nonneg by lia.
+  rewrite even_mod2. reflexivity.
+Qed.
+
+(* an interpolated value lies between start and target (any integers: for a negative numerator - never met on the
+   device - the formula is C's truncation toward zero) *)
 Lemma c_interp_between : forall n s t i, 0 < n -> 1 <= i <= n ->
   (s <= t -> s <= c_interp n s t i <= t) /\ (t <= s -> t <= c_interp n s t i <= s).
 Proof.
-  intros n s t i Hn Hi. unfold c_interp.
-  assert (Hh : 0 <= Z.quot n 2 /\ 2 * Z.quot n 2 <= n).
-  { rewrite Z.quot_div_nonneg by lia. split; [apply Z.div_pos; lia|]. pose proof (Z.mul_div_le n 2 ltac:(lia)). lia. }
-  destruct Hh as [Hh0 Hh1]. set (h := Z.quot n 2) in *.
-  split; intro Hst.
-  - assert (Hnum : 0 <= (t - s) * i) by nia.
-    apply Z.leb_le in Hnum. rewrite Hnum. apply Z.leb_le in Hnum.
-    rewrite Z.quot_div_nonneg by lia.
-    assert (0 <= ((t - s) * i + h) / n) by (apply Z.div_pos; lia).
-    assert (((t - s) * i + h) / n < t - s + 1).
-    { apply Z.div_lt_upper_bound; [lia|]. nia. }
-    lia.
-  - destruct (0 <=? (t - s) * i) eqn:E.
-    + apply Z.leb_le in E. assert ((t - s) * i = 0) by nia. rewrite H.
-      rewrite Z.add_0_l. rewrite Z.quot_small by lia. nia.
-    + apply Z.leb_gt in E.
-      assert (Hq : Z.quot ((t - s) * i - h) n = - (((s - t) * i + h) / n)).
-      { replace ((t - s) * i - h) with (- ((s - t) * i + h)) by lia.
-        rewrite Z.quot_opp_l by lia. rewrite Z.quot_div_nonneg by nia. reflexivity. }
-      rewrite Hq.
-      assert (0 <= ((s - t) * i + h) / n) by (apply Z.div_pos; nia).
-      assert (((s - t) * i + h) / n < s - t + 1).
-      { apply Z.div_lt_upper_bound; [lia|]. nia. }
-      lia.
+  intros n s t i Hn Hi.
+  assert (G : forall lo hi, lo <= hi -> lo * n <= s * n + (t - s) * i <= hi * n -> lo <= c_interp n s t i <= hi).
+  { intros lo hi Hlh Hb. set (num := s * n + (t - s) * i) in *.
+    destruct (Z_le_gt_dec 0 num) as [Hp|Hneg].
+    - unfold num in Hp. rewrite (c_interp_nonneg n s t i Hn Hp). cbv zeta. fold num.
+      pose proof (Z.div_mod num n ltac:(lia)) as D. pose proof (Z.mod_pos_bound num n Hn) as B.
+      set (q := num / n) in *. set (r := num mod n) in *.
+      assert (Hq1 : lo <= q) by nia.
+      assert (Hq2 : q <= hi) by nia.
+      destruct ((n <? 2 * r) || ((2 * r =? n) && negb (Z.even q))) eqn:E; [|lia].
+      assert (Hr : 0 < r).
+      { apply orb_true_iff in E as [E|E]; [apply Z.ltb_lt in E; lia|].
+        apply andb_true_iff in E as [E _]. apply Z.eqb_eq in E. lia. }
+      split; [lia|]. assert (q < hi) by nia. lia.
+    - unfold c_interp. cbv zeta. fold num.
+      replace num with (- (- num)) by lia. rewrite Z.quot_opp_l, Z.rem_opp_l by lia.
+      rewrite Z.quot_div_nonneg, Z.rem_mod_nonneg by lia.
+      pose proof (Z.div_mod (- num) n ltac:(lia)) as D. pose proof (Z.mod_pos_bound (- num) n Hn) as B.
+      set (q := (- num) / n) in *. set (r := (- num) mod n) in *.
+      replace (n <? 2 * - r) with false by (symmetry; apply Z.ltb_ge; lia).
+      replace (2 * - r =? n) with false by (symmetry; apply Z.eqb_neq; lia).
+      cbn [orb andb]. split; nia. }
+  split; intro Hst; apply G; try lia; nia.
 Qed.
 
 Lemma c_interp_ok : forall n s t i, 0 < n -> 1 <= i <= n -> 0 <= s <= 255 -> 0 <= t <= 255 ->
